@@ -38,7 +38,7 @@ MANIFEST = {
 
 HERE = os.path.abspath(__file__)
 MP = refmp.build(b'BND', [(refmp.cd('t'), b'v%d'), (refmp.cd('f', 'n.bin', 'text/plain'), b'data%d')], epilogue=b'\r\n')[0]
-KINDS = ['getq', 'form', 'upload', 'raise', 'crash', '404', 'gen', 'wild', 'chunked', 'badform']
+KINDS = ['getq', 'form', 'upload', 'raise', 'crash', '404', 'gen', 'wild', 'chunked', 'badform', 'badchunkj', 'badchunkh', 'notmod']
 
 
 def src_prefix():
@@ -120,6 +120,17 @@ def make_app(om, obs):
         ident = app.request.headers.get('X-Id')
         snap('p1', ident)
         return repr(sorted(app.request.forms.items()))
+    def notmod():
+        ident = app.request.headers.get('X-Id')
+        snap('p1', ident)
+        rs = app.response
+        rs.headers['Content-Language'] = 'en-' + ident
+        rs.headers['Last-Modified'] = 'Mon, 01 Jan 2024 00:00:0' + ident + ' GMT'
+        rs.headers['X-Keep'] = ident
+        rs.status = 304
+        snap('p2', ident)
+        return ''
+    app.route('/notmod', 'GET', notmod)
     app.route('/chunked', 'POST', chunked)
     app.route('/badform', 'POST', badform)
     app.route('/q', 'GET', getq)
@@ -155,6 +166,12 @@ def environ_for(kind, ident):
         p2 = (ident * 16).encode()[:16]
         raw = b'1a\r\n' + p1 + b'\r\n10;ext=' + ident.encode() + b'\r\n' + p2 + b'\r\n0\r\n\r\n'
         return wsgi.environ('POST', '/chunked', body=raw, chunked=True, headers=h)
+    if kind in ('badchunkj', 'badchunkh'):
+        # malformed chunked framing (mapped to the shared 400 object of errors_map); JSON or HTML error report, URLs of different length
+        h2 = dict(h, Accept='application/json') if kind == 'badchunkj' else h
+        return wsgi.environ('POST', '/chunked', qs='who=' + ident * (3 if kind == 'badchunkh' else 1), body=b'zz\r\n', chunked=True, headers=h2)
+    if kind == 'notmod':
+        return wsgi.environ('GET', '/notmod', qs='n=' + ident, headers=h)
     if kind == 'badform':
         # a multipart form whose field header is malformed in a request-specific way; the client asks for JSON errors
         h2 = dict(h, Accept='application/json')
@@ -175,9 +192,15 @@ def serve(app, kind, ident):
 _solo = {}
 
 
+FRESH_KINDS = {'badform', 'badchunkj', 'badchunkh'}     # requests answered through the shared error objects of errors_map:
+#                                                          every execution (and the stand-alone run) starts from a fresh import
+
+
 def solo(om, kind, ident):
     key = (kind, ident)
     if key not in _solo:
+        if kind in FRESH_KINDS:
+            om = sut.load(fresh=True)
         sut.restore_globals()
         obs = {}
         app = make_app(om, obs)
@@ -187,6 +210,9 @@ def solo(om, kind, ident):
 
 
 def run_exec(om, kinds, prefix, opcode=False, gran='line'):
+    if FRESH_KINDS.intersection(kinds):
+        om = sut.load(fresh=True)
+        sut.snapshot_globals()
     sut.restore_globals()
     obs = {}
     app = make_app(om, obs)
@@ -220,7 +246,7 @@ def judge(om, kinds, x):
 
 
 QUICK_PAIRS = [('getq', k) for k in KINDS[:8]] + [('raise', 'crash'), ('form', 'upload'), ('wild', 'wild'), ('404', 'crash'), ('gen', 'gen'),
-               ('chunked', 'chunked'), ('badform', 'badform')]
+               ('chunked', 'chunked'), ('badform', 'badform'), ('badchunkj', 'badchunkh'), ('getq', 'notmod'), ('notmod', 'crash')]
 
 
 def pairs():
@@ -273,7 +299,7 @@ def shards(tier, seed):
 
 
 def bounds(tier, seed):
-    return {'request_kinds': KINDS, 'pairs': len(pairs()), 'preemption_bound': '1 at line granularity for 15 pairs and one triple' if tier == 'quick' else '2 at function-entry granularity for all pairs, 2 at line granularity for three pairs, 1 at line granularity for all pairs and five triples, 1 at opcode granularity (plumbing files) for two pairs',
+    return {'request_kinds': KINDS, 'pairs': len(pairs()), 'preemption_bound': '1 at line granularity for 18 pairs and one triple' if tier == 'quick' else '2 at function-entry granularity for all pairs, 2 at line granularity for three pairs, 1 at line granularity for all pairs and five triples, 1 at opcode granularity (plumbing files) for two pairs',
             'granularity': 'source line' + ('' if tier == 'quick' else '; opcode events in common_helpers.py/response.py for two pairs'),
             'threads': '2' if tier == 'quick' else '2-3'}
 
